@@ -305,6 +305,7 @@ func copyLoop(c1 io.ReadWriteCloser, c2 io.ReadWriteCloser, shutdown chan struct
 // otherwise occurs inside of conn.pc.RemoteDescription() (called by
 // RemoteAddr). https://bugs.torproject.org/18628#comment:8
 func (sf *SnowflakeProxy) datachannelHandler(conn *webRTCConn, remoteAddr net.Addr, relayURL string) {
+	defer vhook("dh.end")
 	defer conn.Close()
 	defer tokens.ret()
 
@@ -326,6 +327,7 @@ func (sf *SnowflakeProxy) datachannelHandler(conn *webRTCConn, remoteAddr net.Ad
 		log.Printf("no remote address given in websocket")
 	}
 
+	vhook("dh.dial", u.String())
 	ws, _, err := websocket.DefaultDialer.Dial(u.String(), nil)
 	if err != nil {
 		log.Printf("error dialing relay: %s = %s", u.String(), err)
@@ -364,6 +366,7 @@ func (sf *SnowflakeProxy) makePeerConnectionFromOffer(sdp *webrtc.SessionDescrip
 		return nil, fmt.Errorf("accept: NewPeerConnection: %s", err)
 	}
 	pc.OnDataChannel(func(dc *webrtc.DataChannel) {
+		vhook("rs.ondc", dc.Label())
 		log.Println("OnDataChannel")
 		close(dataChan)
 
@@ -500,6 +503,7 @@ func (sf *SnowflakeProxy) runSession(sid string) {
 	offer, relayURL := broker.pollOffer(sid, sf.ProxyType, sf.RelayDomainNamePattern, sf.shutdown)
 	if offer == nil {
 		log.Printf("bad offer from broker")
+		vhook("rs.exit", "badoffer", sid)
 		tokens.ret()
 		return
 	}
@@ -507,11 +511,13 @@ func (sf *SnowflakeProxy) runSession(sid string) {
 	parsedRelayURL, err := url.Parse(relayURL)
 	if err != nil {
 		log.Printf("bad offer from broker: bad Relay URL %v", err.Error())
+		vhook("rs.exit", "badurl", sid)
 		tokens.ret()
 		return
 	}
 	if relayURL != "" && (!matcher.IsMember(parsedRelayURL.Hostname()) || (!sf.AllowNonTLSRelay && parsedRelayURL.Scheme != "wss")) {
 		log.Printf("bad offer from broker: rejected Relay URL")
+		vhook("rs.exit", "rejected", sid)
 		tokens.ret()
 		return
 	}
@@ -520,6 +526,7 @@ func (sf *SnowflakeProxy) runSession(sid string) {
 	pc, err := sf.makePeerConnectionFromOffer(offer, config, dataChan, dataChannelAdaptor.datachannelHandler)
 	if err != nil {
 		log.Printf("error making WebRTC connection: %s", err)
+		vhook("rs.exit", "pcfail", sid)
 		tokens.ret()
 		return
 	}
@@ -529,6 +536,7 @@ func (sf *SnowflakeProxy) runSession(sid string) {
 		if inerr := pc.Close(); inerr != nil {
 			log.Printf("error calling pc.Close: %v", inerr)
 		}
+		vhook("rs.exit", "answerfail", sid)
 		tokens.ret()
 		return
 	}
@@ -538,11 +546,14 @@ func (sf *SnowflakeProxy) runSession(sid string) {
 	select {
 	case <-dataChan:
 		log.Println("Connection successful.")
+		vhook("rs.exit", "connected", sid)
 	case <-time.After(dataChannelTimeout):
+		vhook("rs.dctimeout", sid)
 		log.Println("Timed out waiting for client to open data channel.")
 		if err := pc.Close(); err != nil {
 			log.Printf("error calling pc.Close: %v", err)
 		}
+		vhook("rs.exit", "timeout", sid)
 		tokens.ret()
 	}
 }
